@@ -12,6 +12,8 @@ import (
 	"math/rand"
 	"os"
 	"sort"
+	"strconv"
+	"time"
 
 	"verifharness/wire"
 )
@@ -25,6 +27,13 @@ type Component interface {
 }
 
 var components = map[string]Component{}
+
+func caseDeadline() time.Duration {
+	if v, err := strconv.Atoi(os.Getenv("VERIF_CASE_DEADLINE_MS")); err == nil && v > 0 {
+		return time.Duration(v) * time.Millisecond
+	}
+	return 600 * time.Second
+}
 
 func main() {
 	if len(os.Args) >= 2 && os.Args[1] == "real-worker" {
@@ -93,7 +102,20 @@ func main() {
 		if c.ID == "" {
 			c.ID = fmt.Sprintf("%d", i)
 		}
-		comp.Exec(c, w)
+		// a deadline per case: an implementation call that does not return is reported as a hang on the
+		// operation it was given (components with their own worker or deadline never get this far)
+		done := make(chan struct{})
+		go func() {
+			defer close(done)
+			comp.Exec(c, w)
+		}()
+		select {
+		case <-done:
+		case <-time.After(caseDeadline()):
+			w.Ob(wire.R("hang").S("msg", "the_implementation_did_not_return_within_the_case_deadline"))
+			w.End()
+			os.Exit(0) // the stuck goroutine cannot be stopped; later cases are not executed
+		}
 	}
 	w.W.Flush()
 }
